@@ -32,7 +32,7 @@ ASSUMPTIONS = [
 ]
 TRUSTED = ["pydantic 2.x (executed)", "json (executed)", "vt.sym explorer"]
 BOUNDS = {"parameters": "<= 3 quick, <= 4 thorough", "value classes per kind": "2-3", "serializer": "bundled JSON"}
-REQUIRED_COVERS = ["converted", "not_convertible_unchanged", "unannotated_unchanged", "validate_off", "keyword", "positional", "kwonly", "dep", "model", "none_value"]
+REQUIRED_COVERS = ["converted", "not_convertible_unchanged", "unannotated_unchanged", "validate_off", "keyword", "positional", "kwonly", "dep", "model", "none_value", "second_message"]
 
 
 class PModel(pydantic.BaseModel):
@@ -42,6 +42,10 @@ class PModel(pydantic.BaseModel):
 
 class PDefaults(pydantic.BaseModel):
     a: int = 1
+
+
+# a different model class with the same module and qualified name (hence the same repr) as PModel, e.g. built by a factory
+ShadowPModel = pydantic.create_model("PModel", __module__=__name__, q=(int, 5), other=(str, "shadow"))
 
 
 @dataclasses.dataclass
@@ -127,6 +131,11 @@ def harness(c: sym.Ctx, case: Dict[str, Any]) -> None:
     fn, src = build_function(kinds, kwonly_from if kwonly_from < n else -1, rec)
     lab = Lab(c)
     try:
+        from taskiq.compat import parse_obj_as
+
+        # another task in the same process has used a same-named, different model type before
+        shadow = parse_obj_as(ShadowPModel, {"q": 1})
+        c.check(type(shadow) is ShadowPModel, "conversion_uses_the_annotated_type", got=type(shadow).__name__)
         broker = make_broker(lab)
         broker.register_task(fn, task_name="t")
         recv = Receiver(broker, executor=InlineExecutor(), run_startup=False, max_async_tasks=None, validate_params=validate)
@@ -143,8 +152,41 @@ def harness(c: sym.Ctx, case: Dict[str, Any]) -> None:
 
         mt = lab.loop.create_task(main())
         lab.drive(mt)
+        first_rec = dict(rec)
+        # a later message to the same task on the same receiver, with convertible values: an earlier conversion failure
+        # must not change how the next message is parsed
+        second_needed = any(VALUES[k][vals[i]][0] == "noconv" for i, k in enumerate(kinds))
+        out2: Dict[str, Any] = {}
+        if second_needed:
+            c.cover("second_message")
+            rec.clear()
+            args2 = [VALUES[kinds[i]][0][1] for i in pos_capable[:npos]]
+            kwargs2 = {f"p{i}": VALUES[kinds[i]][0][1] for i in passable if i not in pos_capable[:npos] and kinds[i] != "dep"}
+            msg2 = AsyncKicker("t", broker, {}).with_task_id("id1")._prepare_message(*args2, **kwargs2)
+            decoded2 = broker.formatter.loads(broker.formatter.dumps(msg2).message)
+
+            async def main2() -> None:
+                out2["res"] = await recv.run_task(fn, decoded2)
+
+            lab.drive(lab.loop.create_task(main2()))
+            second_rec = dict(rec)
+            rec.clear()
+            rec.update(first_rec)
     finally:
         lab.close()
+    if second_needed:
+        res2 = out2.get("res")
+        c.check(res2 is not None and not res2.is_err, "task_invoked_without_error", which="second message", err=getattr(res2, "error", None))
+        if res2 is not None and not res2.is_err:
+            for i, k in enumerate(kinds):
+                label, sent, want_on, want_off = VALUES[k][0]
+                if k == "dep":
+                    want2: Any = 99
+                else:
+                    want2 = want_on if validate else want_off
+                got2 = second_rec.get(f"p{i}", "<missing>")
+                c.check(type(got2) is type(want2) and got2 == want2, "argument_bound_to_its_parameter", which="second message after a failed conversion",
+                        param=f"p{i}", kind=k, got=got2, want=want2, signature=src.splitlines()[0], validate=validate)
     res = out.get("res")
     c.event("signature", src.splitlines()[0], "args", args, "kwargs", kwargs, "validate", validate)
     c.check(res is not None and not res.is_err, "task_invoked_without_error", src=src, args=args, kwargs=kwargs, err=getattr(res, "error", None))
